@@ -37,12 +37,13 @@ TYPES = TRACKED + UNTRACKED
 XTYPES = ["Var", "Fs", "Opt"]      # xtl::variant<int,string>, xfixed_string<23>, xoptional<int>: only in builds where the probe "XTYPES" compiles
 OVERALIGNED = ["Ov32", "Ov64"]
 ALLOCATING_OPS = ("Construct", "CopyConstruct", "CopyAssign", "AssignValue")
+SRC_CATS = ["lv", "clv", "rv", "crv"]      # value category x constness of an any source expression (Any!SrcCats): only "rv" moves
 NEVER = ["CharP", "AnyT", "Arr"]
 VALUE_FORMS = ["lv", "clv", "rv", "crv"]
 PTR_FORMS = ["p_m", "p_mc", "p_c", "p_cc", "p_n", "p_nc"]
 CAST_FORMS = PTR_FORMS + ["v_m", "v_mc", "v_c", "v_cc", "v_r", "v_rc", "r_m", "r_mc", "r_c", "r_r"]
 OPEN_FORMS = {"lr_r": "LR", "x_r": "XR", "cx_r": "CXR"}        # form -> feature (probed per build)
-ALL_OPS = ["DefaultConstruct", "Construct", "CopyConstruct", "MoveConstruct", "CopyAssign", "MoveAssign", "AssignValue", "Swap",
+ALL_OPS = ["DefaultConstruct", "Construct", "CopyConstruct", "MoveConstruct", "ConstructFrom", "CopyAssign", "MoveAssign", "AssignFrom", "AssignValue", "Swap",
            "StdSwap", "AReset", "AClear", "Destroy", "DestroyIf", "HasValue", "Empty", "Type", "Cast", "SetVia"]
 PURE_OPS = {"HasValue", "Empty", "Type"}          # calls after which the S->C scripts need not re-establish the state
 TRACE_SPEC, TRACE_CFG = "AnyTrace", "AnyTrace.cfg"
@@ -400,11 +401,14 @@ class Gen:
                     out.append(ev("Construct", k + 1, t=ty, v=val_for(r, ty), form=form_for(r, ty), fuse=f, afuse=af))
             else:
                 j = r.choice(con)
-                if t < 0.78:
-                    out.append(ev("CopyConstruct", k + 1, j=j + 1, fuse=f, afuse=af, nc=r.randrange(3)))
+                if t < 0.64:
+                    out.append(ev("CopyConstruct", k + 1, j=j + 1, fuse=f, afuse=af))
+                elif t < 0.82:
+                    cat = r.choice(SRC_CATS)
+                    out.append(ev("ConstructFrom", k + 1, j=j + 1, cat=cat, fuse=f, afuse=0 if cat == "rv" else af))
                 else:
                     out.append(ev("MoveConstruct", k + 1, j=j + 1, fuse=f))
-            if (f or af) and out[-1]["op"] in ("Construct", "CopyConstruct"):
+            if (f or af) and (out[-1]["op"] in ("Construct", "CopyConstruct") or (out[-1]["op"] == "ConstructFrom" and out[-1]["a"]["cat"] != "rv")):
                 out.append(ev("DestroyIf", k + 1))
             else:
                 self.c[k] = True
@@ -413,8 +417,11 @@ class Gen:
         j = r.choice(con) if r.random() > 0.12 else k
         c = r.random()
         f = self.fuse()
-        if c < 0.12:
-            return [ev("CopyAssign", k + 1, j=j + 1, fuse=f, afuse=self.afuse(), nc=r.randrange(3))]
+        if c < 0.09:
+            return [ev("CopyAssign", k + 1, j=j + 1, fuse=f, afuse=self.afuse())]
+        if c < 0.15:
+            cat = r.choice(SRC_CATS)
+            return [ev("AssignFrom", k + 1, j=j + 1, cat=cat, fuse=f, afuse=0 if cat == "rv" else self.afuse())]
         if c < 0.22:
             return [ev("MoveAssign", k + 1, j=j + 1, fuse=f)]
         if c < 0.34:
@@ -536,8 +543,6 @@ def edge_scripts(edges, rnd, feats):
             put(establish(k, st["vt"][k - 1], st["pv"][k - 1], rnd))
         for c in calls:
             call = {"op": c["l"]["op"], "k": c["l"]["k"], "a": dict(c["l"]["a"])}
-            if call["op"] in ("CopyConstruct", "CopyAssign"):
-                call["a"]["nc"] = rnd.randrange(3)
             put([call], c["x"])
             taken += 1
             if call["op"] in PURE_OPS:
@@ -1265,7 +1270,7 @@ def run(ctx):
             txt = f.read()
         nthrow += txt.count('"exc":"fuse"')
         nalloc += txt.count('"exc":"bad_alloc"')
-        n_crv += txt.count('"nc":2')
+        n_crv += txt.count('"nc":2') + txt.count('"cat":"crv"')
         for t in OVERALIGNED:
             n_over[t] = n_over.get(t, 0) + txt.count('"ty":"%s"' % t)
         nmis = txt.count('"xal":false')
@@ -1365,7 +1370,7 @@ def finish(ctx, q, feats, taken, nwalks, nexec):
              "outcomes the standard allows, fuse 0..1%s; L2 (AnyImpl.tla) => L1 over every representation state x every call x argument x "
              "fuse 0..%d for {Small, Big, STM} and for payloads without events; %d of the L2 transitions and %d simulation walks replayed on "
              "real xtl::any objects, %d random executions over 3-5 objects and 18 payload types, on %d builds of the driver (%s); a case is "
-             "one public call (source any passed as const lvalue / lvalue / const rvalue; allocation-failure fuse 0..2 on the four allocating "
+             "one public call (any source in all four value categories x constness through ConstructFrom / AssignFrom, enumerated by TLC; allocation-failure fuse 0..2 on the four allocating "
              "calls) with its element events, result, the observers' report on all five objects, the shared_ptr owner counts and the number of "
              "outstanding library-made heap blocks, validated by TLC against L1; plus the rows of AnyTypes.tla compiled as static_asserts and calls."
              % ("" if q else "; 4 objects in a third configuration", 1 if q else 2, taken, nwalks, nexec, len(feats), ", ".join(sorted(feats))),
